@@ -323,8 +323,15 @@ func hasMeasurement(d *metacmd.DataT) bool {
 
 // rerun executes the recorded plan on ONE fresh instance and compares with the dumps and
 // results recorded from A (map-iteration-order witness).
-func rerun(p *Plan, ref *outcome, batch bool) (string, string) {
+func rerun(p *Plan, ref *outcome, batch bool) (sig string, what string) {
 	D := ms.VerifNewFSM(p.Opts)
+	defer func() {
+		if sig != "" && mixedSharding(ms.VerifFSMData(D)) {
+			if k := strings.IndexByte(sig, '/'); k > 0 {
+				sig = sig[:k] + "[mixed-sharding]" + sig[k:]
+			}
+		}
+	}()
 	first := uint64(2)
 	start := 0
 	for cn, end := range ref.chunkEnd {
@@ -496,6 +503,7 @@ func worker(c *vf.Ctx, arg string) {
 	}
 	reruns := c.Pick(3, 6)
 	shrunkSigs := map[string]bool{}
+	known := metacmd.KnownSignatures(c, "C15")
 	for ln := 0; ln < nLogs; ln++ {
 		c.LogInput(map[string]any{"batch": arg, "log_no": ln, "seed": c.Seed, "note": "deterministic: rerun this batch"})
 		var n int
@@ -532,9 +540,9 @@ func worker(c *vf.Ctx, arg string) {
 		if o.sig != "" {
 			q := truncate(p, o.at)
 			w := witness{Plan: q, Kind: "exec", Signature: o.sig, Batch: arg, LogNo: ln, Original: len(q.Items)}
-			if !shrunkSigs[o.sig] {
+			if !shrunkSigs[o.sig] && !metacmd.MatchesKnown(known, o.sig) {
 				shrunkSigs[o.sig] = true
-				w.Plan = shrink(q, o.sig, false, c.Pick(120, 300))
+				w.Plan = shrink(q, o.sig, false, c.Pick(80, 300))
 				w.Shrunk = true
 			}
 			c.Violation(o.sig, o.what, w)
@@ -551,9 +559,9 @@ func worker(c *vf.Ctx, arg string) {
 			c.Count("reruns", 1)
 			if sig != "" {
 				w := witness{Plan: p, Kind: "rerun", Signature: sig, Batch: arg, LogNo: ln, Original: len(p.Items)}
-				if !shrunkSigs[sig] {
+				if !shrunkSigs[sig] && !metacmd.MatchesKnown(known, sig) {
 					shrunkSigs[sig] = true
-					w.Plan = shrink(p, sig, true, c.Pick(60, 150))
+					w.Plan = shrink(p, sig, true, c.Pick(50, 150))
 					w.Shrunk = true
 				}
 				c.Violation(sig, what, w)
@@ -680,7 +688,7 @@ func main() {
 		go func(a string) {
 			defer wg.Done()
 			defer func() { <-sem }()
-			c.RunWorker(a, time.Duration(c.Pick(8, 35))*time.Minute)
+			c.RunWorker(a, time.Duration(c.Pick(15, 38))*time.Minute)
 		}(a)
 	}
 	wg.Wait()
